@@ -92,6 +92,21 @@ def run(ctx, broken):
             res["failures"].append({"class": "history", "what": "a matcher that served earlier calls returns `%s`, a fresh matcher returns `%s`: %s" % (sh[:80], fr[:80], mcommon.show_case(c)), "case": line})
         elif sh.startswith("X"):
             res["failures"].append({"class": "variants", "what": sh[:160] + " " + mcommon.show_case(c), "case": line})
+        # the answer must be a function of the CONTENT of the two strings: a decision that contradicts the subsequence
+        # relation (spec facts computed by the extracted specification) means the matcher looked at memory that is not
+        # the haystack it was given (e.g. a truncated copy whose tail is stale scratch memory)
+        f = mcommon.parse_facts(fa)
+        if c["algo"] in "FG" and f.get("nok") == 1 and f.get("subseq") is not None and not mcommon.known_repr(c) and sh[:1] in ("M", "N") and (sh[:1] == "M") != (f["subseq"] == 1):
+            res["failures"].append({"class": "content", "what": "the answer `%s` contradicts the content of the strings (the needle %s a subsequence of the normalised haystack): %s" % (sh[:60], "is" if f["subseq"] == 1 else "is not", mcommon.show_case(c)), "case": line})
+        if c["algo"] == "F" and f.get("nok") == 1 and c["cfg"][3] == "0" and f.get("naive") is not None and sh.startswith("M "):
+            try:
+                sc_ = int(sh.split(" ")[1])
+            except Exception:  # noqa
+                sc_ = None
+            hl_, nl_ = len(c["h"]), len(c["n"])
+            fits_ = hl_ * nl_ <= 102400 and hl_ <= 65535 and nl_ <= 2048 and (5 * hl_ + 2 * nl_ + 8 * (hl_ + 1 - nl_) + (hl_ + 1 - nl_) * nl_ + 16 <= 133120)
+            if sc_ is not None and fits_ and sc_ < f["naive"]:
+                res["failures"].append({"class": "content", "what": "the score %d is below the value %d the documented recurrence gives for the WHOLE haystack: part of the haystack was not looked at (or other memory was): %s" % (sc_, f["naive"], mcommon.show_case(c)), "case": line})
         if rel_out is not None and k < len(rel_out) and rel_out[k] != sh:
             res["failures"].append({"class": "release", "what": "release build returns `%s`, debug build `%s` (wrap-around?): %s" % (rel_out[k][:80], sh[:80], mcommon.show_case(c)), "case": line})
         if ctx["driver"] and io != mo and len(res["disagreements"]) < 40:
